@@ -43,6 +43,7 @@ type vhstInput struct {
 	Endpoints   int   `json:"endpoints"`
 	ConnWorkers int   `json:"conn_workers"`
 	ReadWorkers int   `json:"read_workers"`
+	MaxHold     int   `json:"max_hold"`
 	Membership  bool  `json:"membership"`
 	ExpiryWait  bool  `json:"expiry_wait"` // keep running until a left node has expired (> 1 minute)
 	ConvergeMs  int   `json:"converge_ms"`
@@ -360,6 +361,12 @@ func TestVerifHarness_Stress(t *testing.T) {
 
 	var wg sync.WaitGroup
 	endpoint := func(rng *rand.Rand) string { return fmt.Sprintf("ep-%d", rng.Intn(in.Endpoints)) }
+	// how many connections a connect/disconnect worker keeps at least / at most (drain runs: 0 / 1, so that a node's
+	// endpoint map is empty much of the time)
+	minHold, maxHold := 3, 40
+	if in.MaxHold > 0 {
+		minHold, maxHold = 0, in.MaxHold
+	}
 
 	// ---- connect / disconnect workers
 	for ni, n := range nodes {
@@ -378,13 +385,13 @@ func TestVerifHarness_Stress(t *testing.T) {
 				for !r.stop.Load() {
 					x := rng.Intn(100)
 					switch {
-					case len(mine) < 3 || (x < 50 && len(mine) < 40):
+					case len(mine) < minHold || (x < 50 && len(mine) < maxHold):
 						seq++
 						u := &vhstUpstream{id: endpoint(rng), n: seq}
 						r.do(w, "AddConn", func() { n.manager.AddConn(u) })
 						mine = append(mine, u)
 						w.ledger[u.id]++
-					case x < 92:
+					case x < 92 && len(mine) > 0:
 						i := rng.Intn(len(mine))
 						u := mine[i]
 						mine = append(mine[:i], mine[i+1:]...)
@@ -430,6 +437,10 @@ func TestVerifHarness_Stress(t *testing.T) {
 						r.do(w, "cluster.Nodes", func() { ns = n.state.Nodes() })
 						seen := map[string]bool{}
 						for _, x := range ns {
+							// what the status API does with a snapshot: it walks the endpoints (JSON encoding) without any lock
+							for _, cnt := range x.Endpoints {
+								_ = cnt
+							}
 							seen[x.ID] = true
 							if lastStatus[x.ID] != string(x.Status) {
 								lastStatus[x.ID] = string(x.Status)
@@ -445,7 +456,14 @@ func TestVerifHarness_Stress(t *testing.T) {
 							}
 						}
 					case 5:
-						r.do(w, "cluster.LocalNode", func() { _ = n.state.LocalNode() })
+						var ln *cluster.Node
+						r.do(w, "cluster.LocalNode", func() { ln = n.state.LocalNode() })
+						if ln != nil {
+							time.Sleep(time.Duration(rng.Intn(200)) * time.Microsecond) // the snapshot is in use for a while
+							for _, cnt := range ln.Endpoints {
+								_ = cnt
+							}
+						}
 					case 6:
 						r.do(w, "cluster.NodesMetadata+Node", func() {
 							for _, md := range n.state.NodesMetadata() {
